@@ -82,6 +82,12 @@ CHARS = ["\u0000", "\t", "\n", "\r", " ", "!", "\"", "#", "$", "'", "\\", "`", "
 CONTEXTS = [("code", "%s"), ("ident", "var a%s = 1"), ("string", "'x%sy'"), ("dstring", "\"x%sy\""), ("template", "`x%sy`"), ("template-expr", "`${1%s}`"), ("regex", "/x%sy/"), ("line-comment", "// x%s\n1"), ("block-comment", "/* x%s */ 1"), ("number", "1%s2"), ("escape", "'\\%s'"), ("after-dot", "a.%s"), ("type", "let x: A%s = 1"), ("unterminated", "'%s")]
 
 
+NUMCH = ["0", "1", "9", "_", ".", "e", "E", "+", "-", "x", "b", "o", "n", "a", "f"]
+ESCCH = ["\\", "u", "x", "{", "}", "0", "1", "f", "g", "'", "\n"]
+LITERALS = [("num", "%s", NUMCH), ("num-after-1", "1%s", NUMCH), ("num-after-0", "0%s", NUMCH), ("num-after-1.", "1.%s", NUMCH), ("num-after-1e", "1e%s", NUMCH), ("num-after-dot", ".%s", NUMCH), ("num-in-expr", "x = 2%s;", NUMCH),
+            ("esc-string", "'\\%s'", ESCCH), ("esc-template", "`\\%s`", ESCCH), ("esc-regex", "/\\%s/", ESCCH), ("esc-ident", "var a\\%s = 1", ESCCH)]
+
+
 def run(tier, seed):
     chk = core.Check(PID, tier, seed, "exploration")
     fam = {}
@@ -130,16 +136,29 @@ def run(tier, seed):
             cases.append({"id": "char|%s|%r" % (cname, a), "src": tpl % a})
             for b in chars:
                 cases.append({"id": "char|%s|%r%r" % (cname, a, b), "src": tpl % (a + b)})
+    # literal grammars: every string up to length 3 (thorough 4) over the characters numeric literals and
+    # escape sequences are made of, after every literal prefix (the lexer's digit / separator / exponent /
+    # radix / escape loops each have their own advance logic)
+    L = 3 if tier == "quick" else 4
+    for cname, tpl, alpha in LITERALS:
+        for n in range(1, L + 1):
+            for t in itertools.product(alpha, repeat=n):
+                w = "".join(t)
+                cases.append({"id": "literal|%s|%s" % (cname, w), "src": tpl % w})
     seen = set()
     uniq = []
     for c in cases:
         if c["id"] not in seen:
             seen.add(c["id"])
             uniq.append(c)
-    res = core.run_batch(uniq, sub_args=("c05", "prep"), hang_s=30, as_gb=4)
+    res = core.run_batch(uniq, sub_args=("c05", "prep"), hang_s=30, as_gb=4, max_deaths=4)
     counts = {}
+    skipped = 0
     for c in uniq:
         o = res[c["id"]]
+        if o["status"] == "skipped":
+            skipped += 1
+            continue
         kind = c["id"].split("|")[0]
         total += 2
         counts.setdefault(kind, [0, 0])
@@ -167,10 +186,12 @@ def run(tier, seed):
         fam[k] = {"texts": n, "bad": b}
     chk.coverage = {"evaluations": total, "distinct_nontrivial": nontrivial, "families": fam, "nesting_families": len(NEST), "max_depth": depths(tier)[-1], "corpus_programs": len(progs),
                     "samples": [{"soup": "`t${ ( a"}, {"nest": "assignparen depth 24: " + NEST["assignparen"](3) + " ..."}, {"mutation": uniq[len(uniq) // 2]["src"][:120]}],
-                    "rule": "all token strings up to the stated length over the stated vocabulary (joined with and without spaces, script and module mode); every depth in the stated list for each of %d nesting families; every prefix, single-token deletion and replacement (thorough: insertion) of each corpus program; all 1- and 2-character strings over a %d-character alphabet in %d lexical contexts; non-trivial = texts accepted by prepare()" % (len(NEST), len(CHARS), len(CONTEXTS))}
+                    "rule": "all token strings up to the stated length over the stated vocabulary (joined with and without spaces, script and module mode); every depth in the stated list for each of %d nesting families; every prefix, single-token deletion and replacement (thorough: insertion) of each corpus program; all 1- and 2-character strings over a %d-character alphabet in %d lexical contexts; all strings up to length 3 (thorough 4) over the numeric-literal and escape-sequence alphabets after each of 11 literal prefixes; non-trivial = texts accepted by prepare()" % (len(NEST), len(CHARS), len(CONTEXTS))}
     chk.assumptions = ["parser work is measured in token advances (hook H2); the bound 64*len^2+4096 uses the character count as an upper bound of the token count", "workers run with the ordinary 8 MiB stack and a 4 GiB address-space limit",
                        "inputs are valid UTF-8 (the API takes &str); ill-formed byte sequences cannot reach prepare()"]
-    return chk.finish(exhaustive=True)
+    if skipped:
+        chk.coverage["texts_not_run_after_repeated_worker_deaths"] = skipped
+    return chk.finish(exhaustive=(skipped == 0))
 
 
 def replay(path):
